@@ -393,4 +393,262 @@ theorem call_timerBegin_keep (mi : Nat) (t : Int) (s : Fw σ) (r : Runtime) (m :
   · rw [h8]; simp [Fw.callStart]
   · rw [h9]; simp [Fw.callStart]
 
+/-- **The completion that uses the limit up** (the state's action has a limit and the limit is
+    at most 1 when the completion is reported): after the delivery of the completion event and
+    the decrement to 0 the framework is some `X` in which the machine's runtime is `r0` (limit 0),
+    every slot is empty and the log holds exactly the delivery and the decrement; LimitReached is
+    delivered to the machine in `X` at once (and then the signal round runs). In the log of the
+    call the LimitReached delivery, in the machine's unchanged state, directly follows the
+    decrement to 0 (the log is newest first). -/
+structure CallFire (mi : Nat) (ev : Event) (r r0 : Runtime) (g' : Globals) (s u : Fw σ) : Prop where
+  deliver : ∃ X : Fw σ, u = signalRound ρ (transition ρ FUEL mi .limitReached X).1 ∧
+    X.rt[mi]? = some r0 ∧
+    (∀ j, j ≠ mi → X.rt[j]? = (s.rt[j]?).map (fun r => { r with zeroedA := false, zeroedB := false })) ∧
+    X.actions = s.actions.map (fun _ => none) ∧ X.machines = s.machines ∧ X.signalPending = none ∧
+    X.fault = s.fault ∧ X.rng = s.rng ∧ X.g = g' ∧
+    X.log = .limit mi 0 true :: .trans mi ev.toNat r.currentState :: s.log
+  log : ∃ l, u.log = l ++ .trans mi Event.limitReached.toNat r.currentState :: .limit mi 0 true ::
+    .trans mi ev.toNat r.currentState :: s.log
+
+theorem call_paddingSent_fire (mi : Nat) (t : Int) (s : Fw σ) (r : Runtime) (m : Machine) (st : State) (a : Action)
+    (hr : s.rt[mi]? = some r) (hm : s.machines[mi]? = some m) (hne : r.currentState ≠ STATE_END)
+    (hst : m.states[r.currentState]? = some st) (htr : st.transitions[Event.paddingSent.toNat]? = some none)
+    (hsig : s.signalPending = none) (hlen : mi < s.actions.length)
+    (hact : st.action = some a) (hl : a.hasLimit = true) (h1 : r.stateLimit ≤ 1) :
+    CallFire ρ mi .paddingSent r
+      { r with stateLimit := 0, zeroedA := false, zeroedB := false,
+               acct := { r.acct with paddingSent := r.acct.paddingSent + 1 } }
+      { s.g with now := t, paddingSent := s.g.paddingSent + 1 } s
+      (triggerEvents ρ [.paddingSent mi] t s) := by
+  unfold triggerEvents
+  simp only [List.foldl]
+  have hr0 := callStart_rt s t mi r hr
+  have hm0 : (s.callStart t).machines[mi]? = some m := hm
+  rw [processEvent_paddingSent_noTrans ρ mi (s.callStart t) _ m st hr0 hm0 hne hst htr]
+  have hrA : (({ s.callStart t with g := { (s.callStart t).g with paddingSent := (s.callStart t).g.paddingSent + 1 } } : Fw σ).modRt mi
+            (fun r => { r with acct := { r.acct with paddingSent := r.acct.paddingSent + 1 } })).rt[mi]? =
+      some { r with zeroedA := false, zeroedB := false, acct := { r.acct with paddingSent := r.acct.paddingSent + 1 } } := by
+    rw [Fw.modRt_rt_self]
+    simp [Fw.callStart, List.getElem?_map, hr]
+  obtain ⟨X, hX, h1', h2, h3, h4, h5, h6, h7, h8, h9, hlog⟩ :=
+    decrement_round_fire ρ mi (.trans mi Event.paddingSent.toNat r.currentState) _ _ m st a hrA (by simpa using hm0) hst
+      hact hl h1 (by simpa [Fw.callStart] using hlen)
+  refine ⟨⟨X, hX, h1', fun j hj => ?_, ?_, ?_, ?_, ?_, ?_, ?_, ?_⟩, ?_⟩
+  · rw [h2 j hj, Fw.modRt_rt_other _ _ _ _ hj]
+    simp [Fw.callStart, List.getElem?_map]
+  · rw [h3]; simp [Fw.callStart]
+  · rw [h4]; simp [Fw.callStart]
+  · rw [h5]; simpa [Fw.callStart] using hsig
+  · rw [h6, modRt_fault_some _ mi _ _ (by simpa using hr0)]; rfl
+  · rw [h7]; simp [Fw.callStart]
+  · rw [h8]; simp [Fw.callStart]
+  · rw [h9]; simp [Fw.callStart]
+  · obtain ⟨l, hl⟩ := hlog
+    exact ⟨l, by rw [hl]; simp [Fw.callStart]⟩
+
+theorem call_timerBegin_fire (mi : Nat) (t : Int) (s : Fw σ) (r : Runtime) (m : Machine) (st : State) (a : Action)
+    (hr : s.rt[mi]? = some r) (hm : s.machines[mi]? = some m) (hne : r.currentState ≠ STATE_END)
+    (hst : m.states[r.currentState]? = some st) (htr : st.transitions[Event.timerBegin.toNat]? = some none)
+    (hsig : s.signalPending = none) (hlen : mi < s.actions.length)
+    (hact : st.action = some a) (hl : a.hasLimit = true) (h1 : r.stateLimit ≤ 1) :
+    CallFire ρ mi .timerBegin r
+      { r with stateLimit := 0, zeroedA := false, zeroedB := false }
+      { s.g with now := t } s
+      (triggerEvents ρ [.timerBegin mi] t s) := by
+  unfold triggerEvents
+  simp only [List.foldl]
+  have hr0 := callStart_rt s t mi r hr
+  have hm0 : (s.callStart t).machines[mi]? = some m := hm
+  rw [processEvent_timerBegin_noTrans ρ mi (s.callStart t) _ m st hr0 hm0 hne hst htr]
+  obtain ⟨X, hX, h1', h2, h3, h4, h5, h6, h7, h8, h9, hlog⟩ :=
+    decrement_round_fire ρ mi (.trans mi Event.timerBegin.toNat r.currentState) _ _ m st a hr0 hm0 hst
+      hact hl h1 (by simpa [Fw.callStart] using hlen)
+  refine ⟨⟨X, hX, h1', fun j hj => ?_, ?_, ?_, ?_, ?_, ?_, ?_, ?_⟩, ?_⟩
+  · rw [h2 j hj]
+    simp [Fw.callStart, List.getElem?_map]
+  · rw [h3]; simp [Fw.callStart]
+  · rw [h4]; simp [Fw.callStart]
+  · rw [h5]; simpa [Fw.callStart] using hsig
+  · rw [h6]; rfl
+  · rw [h7]; simp [Fw.callStart]
+  · rw [h8]; simp [Fw.callStart]
+  · rw [h9]; simp [Fw.callStart]
+  · obtain ⟨l, hl⟩ := hlog
+    exact ⟨l, by rw [hl]; simp [Fw.callStart]⟩
+
+/-! ### `k` completions in a row -/
+
+/-- what `k` counted completions in a row (one per call), none of which uses the limit up, do -/
+structure Counted (mi : Nat) (r' : Runtime) (s u : Fw σ) : Prop where
+  rt : u.rt[mi]? = some r'
+  machines : u.machines = s.machines
+  signal : u.signalPending = s.signalPending
+  actLen : u.actions.length = s.actions.length
+  fault : u.fault = s.fault
+  rng : u.rng = s.rng
+  /-- LimitReached was never delivered to the machine, and its limit was never resampled -/
+  log : ∃ l, u.log = l ++ s.log ∧ (∀ st', LogEntry.trans mi Event.limitReached.toNat st' ∉ l) ∧
+    (∀ x, LogEntry.limit mi x false ∉ l)
+
+theorem countdown_generic (mi : Nat) (E : TEvent) (ev : Event) (upd : RtAcct → RtAcct) (G : Int → Globals → Globals)
+    (m : Machine) (st : State) (cur : Nat) (hev : ev ≠ .limitReached)
+    (H : ∀ (t : Int) (s : Fw σ) (r : Runtime), s.rt[mi]? = some r → s.machines[mi]? = some m →
+        r.currentState = cur → s.signalPending = none →
+        (∀ a, st.action = some a → a.hasLimit = true → 2 ≤ r.stateLimit) →
+        CallKeep mi ev r { r with stateLimit := r.stateLimit - 1, zeroedA := false, zeroedB := false, acct := upd r.acct }
+          (G t s.g) s (triggerEvents ρ [E] t s))
+    (ts : List Int) (s : Fw σ) (r : Runtime)
+    (hr : s.rt[mi]? = some r) (hm : s.machines[mi]? = some m) (hcur : r.currentState = cur)
+    (hsig : s.signalPending = none)
+    (hk : ∀ a, st.action = some a → a.hasLimit = true → ts.length < r.stateLimit) :
+    Counted mi
+      { r with stateLimit := r.stateLimit - ts.length, zeroedA := r.zeroedA && ts.isEmpty,
+               zeroedB := r.zeroedB && ts.isEmpty, acct := upd^[ts.length] r.acct }
+      s (runCalls ρ s (ts.map (fun t => ([E], t)))) ∧
+    (ts ≠ [] → (runCalls ρ s (ts.map (fun t => ([E], t)))).actions = s.actions.map (fun _ => none)) := by
+  induction ts generalizing s r with
+  | nil =>
+    refine ⟨⟨?_, rfl, rfl, rfl, rfl, rfl, ⟨[], rfl, fun _ h => (by cases h), fun _ h => (by cases h)⟩⟩, fun h => absurd rfl h⟩
+    simp [runCalls, hr]
+  | cons t ts ih =>
+    have hk1 : ∀ a, st.action = some a → a.hasLimit = true → 2 ≤ r.stateLimit := by
+      intro a ha hl
+      have := hk a ha hl
+      simp only [List.length_cons] at this
+      omega
+    have hc := H t s r hr hm hcur hsig hk1
+    have hk2 : ∀ a, st.action = some a → a.hasLimit = true →
+        ts.length < ({ r with stateLimit := r.stateLimit - 1, zeroedA := false, zeroedB := false, acct := upd r.acct } : Runtime).stateLimit := by
+      intro a ha hl
+      have := hk a ha hl
+      simp only [List.length_cons] at this
+      show ts.length < r.stateLimit - 1
+      omega
+    obtain ⟨ih1, ih2⟩ := ih (triggerEvents ρ [E] t s) _ hc.rt (by rw [hc.machines]; exact hm) hcur hc.signal hk2
+    have hrun : runCalls ρ s ((t :: ts).map (fun t => ([E], t))) =
+        runCalls ρ (triggerEvents ρ [E] t s) (ts.map (fun t => ([E], t))) := by
+      simp [runCalls]
+    rw [hrun]
+    obtain ⟨l0, hl0, hn0⟩ := hc.noLimitReached hev
+    obtain ⟨l1, hl1, hn1, hx1⟩ := ih1.log
+    refine ⟨⟨?_, ih1.machines.trans hc.machines, by rw [ih1.signal, hc.signal, hsig], ?_, ih1.fault.trans hc.fault,
+      ih1.rng.trans hc.rng, ⟨l1 ++ l0, by rw [hl1, hl0, List.append_assoc], ?_, ?_⟩⟩, fun _ => ?_⟩
+    · rw [ih1.rt]
+      simp only [List.length_cons, Function.iterate_succ, Function.comp_apply, List.isEmpty_cons, Bool.and_false,
+        Bool.false_and, Nat.sub_sub, Nat.add_comm 1]
+    · rw [ih1.actLen, hc.actions]; simp
+    · intro st' hmem
+      rcases List.mem_append.mp hmem with h | h
+      · exact hn1 st' h
+      · exact hn0 st' h
+    · intro x hmem
+      rcases List.mem_append.mp hmem with h | h
+      · exact hx1 x h
+      · have hl0' : l0 = [.limit mi (r.stateLimit - 1) true, .trans mi ev.toNat r.currentState] := by
+          have := hc.log
+          rw [hl0] at this
+          exact List.append_cancel_right (by simpa using this)
+        rw [hl0'] at h
+        simp at h
+    · cases ts with
+      | nil => simpa [runCalls] using hc.actions
+      | cons t' ts' =>
+        rw [ih2 (by simp), hc.actions]; simp
+
+theorem iterate_paddingSent (k : Nat) (a : RtAcct) :
+    (fun a : RtAcct => { a with paddingSent := a.paddingSent + 1 })^[k] a = { a with paddingSent := a.paddingSent + k } := by
+  induction k generalizing a with
+  | zero => rfl
+  | succ k ih =>
+    rw [Function.iterate_succ, Function.comp_apply, ih]
+    simp only [Nat.add_assoc, Nat.add_comm 1]
+
+/-- **Countdown, PaddingSent**: `k = ts.length` calls in a row, each reporting one PaddingSent for
+    machine `mi` whose current state `cur` has no transition on PaddingSent. If the state's action
+    has a limit, `k` is less than the limit `L = r.stateLimit` (so that no call uses it up); if it
+    has none, `k` is arbitrary. Then the machine is still in `cur`, its limit is `L - k`, it has
+    accounted `k` more padding packets, LimitReached was never delivered to it and its limit was
+    never resampled. -/
+theorem countdown_paddingSent (mi : Nat) (m : Machine) (st : State) (ts : List Int) (s : Fw σ) (r : Runtime)
+    (hr : s.rt[mi]? = some r) (hm : s.machines[mi]? = some m) (hne : r.currentState ≠ STATE_END)
+    (hst : m.states[r.currentState]? = some st) (htr : st.transitions[Event.paddingSent.toNat]? = some none)
+    (hsig : s.signalPending = none)
+    (hk : ∀ a, st.action = some a → a.hasLimit = true → ts.length < r.stateLimit) :
+    Counted mi
+      { r with stateLimit := r.stateLimit - ts.length, zeroedA := r.zeroedA && ts.isEmpty,
+               zeroedB := r.zeroedB && ts.isEmpty,
+               acct := { r.acct with paddingSent := r.acct.paddingSent + ts.length } }
+      s (runCalls ρ s (ts.map (fun t => ([TEvent.paddingSent mi], t)))) ∧
+    (ts ≠ [] → (runCalls ρ s (ts.map (fun t => ([TEvent.paddingSent mi], t)))).actions = s.actions.map (fun _ => none)) := by
+  have := countdown_generic ρ mi (.paddingSent mi) .paddingSent
+    (fun a => { a with paddingSent := a.paddingSent + 1 })
+    (fun t g => { g with now := t, paddingSent := g.paddingSent + 1 }) m st r.currentState (by decide)
+    (fun t s' r' hr' hm' hcur' hsig' hk' =>
+      call_paddingSent_keep ρ mi t s' r' m st hr' hm' (by rw [hcur']; exact hne) (by rw [hcur']; exact hst) htr hsig' hk')
+    ts s r hr hm rfl hsig hk
+  rw [iterate_paddingSent] at this
+  exact this
+
+/-- **Countdown, TimerBegin**: the same for `k` calls each reporting one TimerBegin for `mi`. -/
+theorem countdown_timerBegin (mi : Nat) (m : Machine) (st : State) (ts : List Int) (s : Fw σ) (r : Runtime)
+    (hr : s.rt[mi]? = some r) (hm : s.machines[mi]? = some m) (hne : r.currentState ≠ STATE_END)
+    (hst : m.states[r.currentState]? = some st) (htr : st.transitions[Event.timerBegin.toNat]? = some none)
+    (hsig : s.signalPending = none)
+    (hk : ∀ a, st.action = some a → a.hasLimit = true → ts.length < r.stateLimit) :
+    Counted mi
+      { r with stateLimit := r.stateLimit - ts.length, zeroedA := r.zeroedA && ts.isEmpty,
+               zeroedB := r.zeroedB && ts.isEmpty }
+      s (runCalls ρ s (ts.map (fun t => ([TEvent.timerBegin mi], t)))) ∧
+    (ts ≠ [] → (runCalls ρ s (ts.map (fun t => ([TEvent.timerBegin mi], t)))).actions = s.actions.map (fun _ => none)) := by
+  have := countdown_generic ρ mi (.timerBegin mi) .timerBegin id
+    (fun t g => { g with now := t }) m st r.currentState (by decide)
+    (fun t s' r' hr' hm' hcur' hsig' hk' =>
+      call_timerBegin_keep ρ mi t s' r' m st hr' hm' (by rw [hcur']; exact hne) (by rw [hcur']; exact hst) htr hsig' hk')
+    ts s r hr hm rfl hsig hk
+  rw [Function.iterate_id] at this
+  exact this
+
+/-- **The `L`-th completion**: after `L - 1` counted PaddingSent completions (`L` the sampled limit
+    of a state whose action has a limit; also `L = 0` with no previous completion), the next
+    PaddingSent for the machine uses the limit up and LimitReached is delivered in that call. -/
+theorem countdown_paddingSent_fire (mi : Nat) (m : Machine) (st : State) (a : Action) (ts : List Int) (t : Int)
+    (s : Fw σ) (r : Runtime)
+    (hr : s.rt[mi]? = some r) (hm : s.machines[mi]? = some m) (hne : r.currentState ≠ STATE_END)
+    (hst : m.states[r.currentState]? = some st) (htr : st.transitions[Event.paddingSent.toNat]? = some none)
+    (hsig : s.signalPending = none) (hlen : mi < s.actions.length)
+    (hact : st.action = some a) (hl : a.hasLimit = true) (hL : ts.length = r.stateLimit - 1) :
+    runCalls ρ s ((ts ++ [t]).map (fun t => ([TEvent.paddingSent mi], t))) =
+      triggerEvents ρ [.paddingSent mi] t (runCalls ρ s (ts.map (fun t => ([TEvent.paddingSent mi], t)))) ∧
+    CallFire ρ mi .paddingSent
+      { r with stateLimit := r.stateLimit - ts.length, zeroedA := r.zeroedA && ts.isEmpty,
+               zeroedB := r.zeroedB && ts.isEmpty,
+               acct := { r.acct with paddingSent := r.acct.paddingSent + ts.length } }
+      { r with stateLimit := 0, zeroedA := false, zeroedB := false,
+               acct := { r.acct with paddingSent := r.acct.paddingSent + ts.length + 1 } }
+      { (runCalls ρ s (ts.map (fun t => ([TEvent.paddingSent mi], t)))).g with
+          now := t, paddingSent := (runCalls ρ s (ts.map (fun t => ([TEvent.paddingSent mi], t)))).g.paddingSent + 1 }
+      (runCalls ρ s (ts.map (fun t => ([TEvent.paddingSent mi], t))))
+      (triggerEvents ρ [.paddingSent mi] t (runCalls ρ s (ts.map (fun t => ([TEvent.paddingSent mi], t))))) := by
+  refine ⟨by simp [runCalls, List.foldl_append], ?_⟩
+  have hk : ∀ a', st.action = some a' → a'.hasLimit = true → ts.length < r.stateLimit ∨ ts = [] := by
+    intro _ _ _
+    by_cases h0 : r.stateLimit = 0
+    · right; exact List.length_eq_zero_iff.mp (by omega)
+    · left; omega
+  by_cases hts : ts = []
+  · subst hts
+    have h1 : r.stateLimit ≤ 1 := by simp at hL; omega
+    have := call_paddingSent_fire ρ mi t s r m st a hr hm hne hst htr hsig hlen hact hl h1
+    simpa [runCalls] using this
+  · have hk' : ∀ a', st.action = some a' → a'.hasLimit = true → ts.length < r.stateLimit := by
+      intro a' h1 h2
+      rcases hk a' h1 h2 with h | h
+      · exact h
+      · exact absurd h hts
+    obtain ⟨hc, _⟩ := countdown_paddingSent ρ mi m st ts s r hr hm hne hst htr hsig hk'
+    have := call_paddingSent_fire ρ mi t _ _ m st a hc.rt (by rw [hc.machines]; exact hm) hne hst htr
+      (by rw [hc.signal]; exact hsig) (by rw [hc.actLen]; exact hlen) hact hl
+      (by show r.stateLimit - ts.length ≤ 1; omega)
+    exact this
+
 end Mb
